@@ -6,7 +6,8 @@
  * What stays real IR around them: __cxa_allocate_exception / __cxa_throw (lowered by ll2c to the pending-exception
  * flag), the inline std::string( const char* ) constructor and destructor, the unwinding through the rule's frames and the
  * wrapper's  catch( const parse_error& ).  What is modelled: the parse_error constructor itself (message and position
- * formatting through std::ostringstream; not a subject of C15) and the out-of-line libstdc++ string allocation helper. */
+ * formatting through std::ostringstream; not a subject of C15); the out-of-line libstdc++ string allocation helper
+ * std::string::_M_create is modelled in lib/models.h (the harness selects its parameter type with VF_STRING_SELF_T). */
 #ifndef C15_MODELS_H
 #define C15_MODELS_H
 #ifndef VF_REAL
@@ -28,14 +29,6 @@ void x__ZN3tao5pegtl20parse_error_templateINS0_8positionEEC1INS0_8internal12acti
     struct S_class_tao__pegtl__parse_error_template *e, struct S_class_std____cxx11__basic_string *msg, struct S_class_tao__pegtl__internal__action_input *in) {
   (void)e; (void)msg; (void)in; c15_reported++;
 }
-/* std::string::_M_create( size_type& capacity, size_type old_capacity ): storage for capacity + 1 chars (allocation failure and
- * max_size are outside every claim) */
-u8 *x__ZNSt7__cxx1112basic_stringIcSt11char_traitsIcESaIcEE9_M_createERmm(struct S_class_std____cxx11__basic_string *s, u64 *cap, u64 old) {
-  (void)s; (void)old;
-  u8 *p = malloc(*cap + 1); __VERIFIER_assume_nonnull(p); return p;
-}
-/* std::__throw_logic_error: only reached by std::string( nullptr ) */
-void x__ZSt19__throw_logic_errorPKc(u8 *m) { (void)m; __VERIFIER_trap(); }
 /* referenced only from parse_error's destructors / vtable, which the lowered exception model never calls */
 void x__ZNSt13runtime_errorD2Ev(struct S_class_std__runtime_error *e) { (void)e; }
 u8 *x__ZNKSt13runtime_error4whatEv(struct S_class_std__runtime_error *e) { (void)e; return (u8 *)""; }
